@@ -738,10 +738,15 @@ def check_C26(res):
     run_mc(res, "MC_Rrl/fixed", "MC_Rrl.tla", "MC_Rrl.cfg" if q else "MC_Rrl_deep.cfg", workers=4)
     run_mc(res, "MC_Rrl/as_found (32-bit product wraps)", "MC_Rrl.tla", "MC_Rrl_as_found.cfg", workers=2, expect_violation="any")
     trace_stage(res, ["rrl", "time", res.seed, 40 if q else 1500], "TraceRrl", "rrl/time", ["C26"], session_start=("Reset",))
+    # (G) one history per transition of the MC_Rrl state graph (every k-th in the quick tier), replayed with sub-second shifts
+    hist, nh = graph_histories(res, "MC_Rrl/graph", "MC_Rrl.tla", "MC_Rrl_graph_quick.cfg" if q else "MC_Rrl.cfg", stride=4 if q else 4)
+    v = trace_stage(res, ["rrl", "replay", hist], "TraceRrl", "rrl/graph-replay", ["C26"], session_start=("Reset",), driver_tail=[5, 2, 2])
+    os.remove(hist)
+    res.notes["rrl/graph-replay"]["sessions_replayed"] = nh
     res.assumptions += ["rates <= 10^6 and a total simulated idle time <= 2*10^9 s per session so that the specification's integers stay below 2^31",
                         "the limiter's clock read lies within the harness-measured interval around the call (the logged whole-second refill must be consistent with it)",
                         "for slip >= 2 a limited response may be slipped or dropped (the coin is not logged)"]
-    return "(M) implemented bucket = abstract token bucket (same decision, same count) over every request-time history in scope, incl. gaps where rate x seconds exceeds the word size; (V) sessions of 5-69 requests: rates 1..10^6 per category, windows 1-15, slip 0-3, table sizes 1/7/65537 (evictions), idle periods 1 s .. 10^9 s injected by shifting every bucket's last_refill (Server::verif_rrl_shift) plus real sleeps of 0.1-1.2 s, single-stream and mixed-stream histories; every hook event (count before/after, whole seconds refilled, action) and the visible outcome (full response = the unlimited server's response octets, slipped = TC with only OPT/TSIG, dropped = none) is a step of Rrl!BucketStep"
+    return "(M) implemented bucket = abstract token bucket (same decision, same count) over every request-time history in scope, incl. gaps where rate x seconds exceeds the word size; (V) sessions of 5-69 requests: rates 1..10^6 per category, windows 1-15, slip 0-3, table sizes 1/7/65537 (evictions), idle periods 1 s .. 10^9 s injected by shifting every bucket's last_refill (Server::verif_rrl_shift) plus real sleeps of 0.1-1.2 s, single-stream and mixed-stream histories; (G) the histories of the MC_Rrl state graph (gaps of 0, 0.4, 0.6, 1.0, 2.6 and 32 s around the whole-second boundaries) replayed into the real limiter through sub-second shifts; every hook event (count before/after, whole seconds refilled, action) and the visible outcome (full response = the unlimited server's response octets, slipped = TC with only OPT/TSIG, dropped = none) is a step of Rrl!BucketStep"
 
 
 def check_C27(res):
